@@ -59,7 +59,12 @@ def switch(target_handle: Handle[World], clear_current=False, clear_next=False,
     # the current handle is being cleared and re-entered), do it right
     # away: events must reach the world instance that will actually run,
     # not one that the loop is about to discard.
-    self_switch = target_handle.cached and target_handle() is from_world
+    # The handle being re-entered is recognized by identity too: its
+    # cache may have been dropped meanwhile by the running code.
+    current_handle = getattr(desper.default_loop, 'current_world_handle',
+                             None)
+    self_switch = (target_handle is current_handle
+                   or (target_handle.cached and target_handle() is from_world))
     if clear_next or (clear_current and self_switch):
         target_handle.clear()
         clear_next = False
